@@ -14,6 +14,10 @@ package c09
 // stand at any position of a history (bounds: searchCfg.faultDepth / maxFaults), e.g. "query, failed store,
 // store across the window boundary" - whatever the failure leaves behind in the in-memory index (running
 // window rebuilt as a new object, LRU not purged) has to show in a later state's query grid.
+// Rejected blocks come in every kind Store can refuse by succession: number head+1 that does not connect, number <= head
+// (the head again, a sibling of the head, a stale canonical block) and number > head+1 (node_test.go); the rejected-store
+// sweep (rejectedstore_test.go) puts each of them on a node whose running filter is already initialised and follows it
+// with every tail of <= 2 further ops before the grid.
 // In every distinct state every filter x range x chunk size x scan limit is paged to the end through the
 // real Blockchain.EventFilter and compared with a naive scan of the reference receipts.
 
@@ -56,6 +60,14 @@ type harness struct {
 	pcQueries             atomic.Int64
 	tReplay, tKey, tCheck atomic.Int64
 	sem                   chan struct{} // global CPU slots shared by the concurrent searches
+	qseen                 sync.Map      // base label + query key -> true: states whose whole grid has been run (search and rejected-store sweep)
+}
+
+// firstQuery reports whether the query key qk of a state over base label is new (and marks it): states with equal
+// query keys (same store image, same live index objects) answer every query identically, the grid is run once.
+func (h *harness) firstQuery(label, qk string) bool {
+	_, dup := h.qseen.LoadOrStore(label+"|"+qk, true)
+	return !dup
 }
 
 // buildBases stores the boundary chain once per backend and freezes images at the wanted heads.
@@ -185,6 +197,7 @@ func TestCheck(t *testing.T) {
 		}
 	}
 	alphabet = append(alphabet, faultOps...)
+	alphabet = append(alphabet, rejectedByNumberOps(r.Thorough())...)
 	if only := os.Getenv("C09_BASE"); only != "" {
 		var keep []searchCfg
 		for _, c := range cfgs {
@@ -281,8 +294,29 @@ func TestCheck(t *testing.T) {
 			fcCases.Add(h.failedCommitSweep(b))
 		}()
 	}
+	// rejected-store sweep (rejectedstore_test.go), after the searches: states the searches have checked are not re-queried
+	var rej rejStats
+	var rejMu sync.Mutex
+	if os.Getenv("C09_NO_REJ") != "" {
+		r.Incomplete("rejected-store sweep switched off (C09_NO_REJ, development aid)")
+	} else {
+		for b := range done {
+			wg.Add(1)
+			go func() {
+				defer wg.Done()
+				s := h.rejectedStoreSweep(b)
+				rejMu.Lock()
+				rej.add(s)
+				rejMu.Unlock()
+			}()
+		}
+	}
 	wg.Wait()
 	r.Set("failed_commit_cases", fcCases.Load())
+	r.Set("rejected_store_histories", rej.cases)
+	r.Set("rejected_store_histories_by_kind", rej.byKind)
+	r.Set("rejected_store_histories_op_not_enabled", rej.skipped)
+	r.Set("rejected_store_states_checked", rej.gridsRun)
 	<-denseDone
 	r.Set("dense_block_queries", denseQ[0]+denseQ[1])
 	h.queries.Add(denseQ[0] + denseQ[1])
@@ -333,14 +367,17 @@ func TestCheck(t *testing.T) {
 		"failed-commit sweep: every base (window-boundary bases also without a snapshot on disk) x {store:X, store:Y, revert} x k-th commit fails -> same node answers the grid; "+
 		"a new node on that image (= crash before commit k) answers the grid and performs the op; retry on the same node succeeds and answers the grid, "+
 		"then every continuation of <= 2 further ops followed by an ungraceful restart answers the grid; "+
+		"rejected-store sweep: every base (as above) x running filter initialised by {snapshot write, full-range query} x rejected block %v x every tail of <= 2 ops over %v on one long-lived node, "+
+		"then the grid unless a state with the same query key already had it; "+
 		"dense blocks: chains with two blocks of 100..6000 single-key events from distinct emitters (a quarter to nearly all of the 8192 bloom bits set), one query per event key and per emitter on the long-lived node and after both kinds of restart; "+
 		"paged to the end (tokens round-tripped through their string form, must advance) and compared event by event with the naive scan of the reference receipts",
-		opList(alphabet), len(h.filters), chunkSizes, scanLimits, longRange, pcDepth))
+		opList(alphabet), len(h.filters), chunkSizes, scanLimits, longRange, pcDepth, opList(rejectedKinds(r.Thorough())), opList(rejectedTailLetters(r.Thorough()))))
 	r.Assume = append(r.Assume,
 		"blocks are produced by verif/mc/chain (valid hashes/commitments); event layouts come from the 4-shape set of universe_test.go",
 		"a key pattern ending in a wildcard position is compared under juno's reading (event needs a key at every pattern position); counted in outcome 'trailing-wildcard-excludes-shorter-event'",
 		"crash = loss of the process (new Blockchain on the same store); a failing commit (fault ops of the search, failed-commit sweep) returns an error and applies nothing (verif/mc/faultdb)",
-		"rejected blocks are self-consistent (they pass SanityCheckNewHeight) and fail inside Store: parent is a sibling of the head / state update's old root is not the head's root",
+		"rejected blocks are self-consistent (they pass SanityCheckNewHeight) and fail inside Store: parent is a sibling of the head / state update's old root is not the head's root / "+
+			"block number is head-2..head (a canonical block offered again, a sibling of the head) or head+2..head+3 (descendant of a valid block that was never stored)",
 		"base images are reached by plain sequential sync (no enumeration below them)")
 	r.Finish()
 }
@@ -391,7 +428,6 @@ func (h *harness) search(b *base, alphabet []op, c searchCfg) (states, transitio
 	label := b.name + hist.Backend(b.newState)
 	seenPrev := map[string]uint8{} // key -> fault layers (bit f = reached with f faults) in earlier levels
 	seenNow := map[string]uint8{}  // ... in the level being expanded
-	qseen := map[string]bool{}
 	var mu sync.Mutex
 	visit := func(n *node, p []op) {
 		// the check forces the lazy running filter by writing its snapshot (this node is discarded
@@ -404,9 +440,8 @@ func (h *harness) search(b *base, alphabet []op, c searchCfg) (states, transitio
 			}
 		}
 		qk := n.queryKey()
+		dup := !h.firstQuery(label, qk)
 		mu.Lock()
-		dup := qseen[qk]
-		qseen[qk] = true
 		if !dup {
 			qstates++
 			if faults(p) > 0 {
